@@ -17,6 +17,7 @@ import (
 	"sort"
 	"strings"
 	"sync"
+	"time"
 
 	"github.com/milvus-io/milvus/pkg/mq/common"
 	"github.com/milvus-io/milvus/pkg/mq/msgdispatcher"
@@ -51,6 +52,10 @@ func newFakeDispatcher(rt *caseRT) *fakeDispatcher {
 }
 
 func (d *fakeDispatcher) Register(ctx context.Context, cfg *msgdispatcher.StreamConfig) (<-chan *msgdispatcher.MsgPack, error) {
+	if ms := d.rt.c.RegDelayMs[cfg.VChannel]; ms > 0 {
+		// a slow registration (schedule perturbation only: no verdict depends on it)
+		time.Sleep(time.Duration(ms) * time.Millisecond)
+	}
 	d.mu.Lock()
 	defer d.mu.Unlock()
 	d.regs[cfg.VChannel]++
@@ -273,18 +278,18 @@ func (stubFactory) NewMsgStreamDisposer(ctx context.Context) func([]string, stri
 
 type stubStream struct{}
 
-func (*stubStream) Close()                                              {}
-func (*stubStream) AsProducer(ctx context.Context, channels []string)   {}
-func (*stubStream) Produce(context.Context, *msgstream.MsgPack) error   { return nil }
-func (*stubStream) SetRepackFunc(repackFunc msgstream.RepackFunc)       {}
-func (*stubStream) GetProduceChannels() []string                        { return nil }
+func (*stubStream) Close()                                            {}
+func (*stubStream) AsProducer(ctx context.Context, channels []string) {}
+func (*stubStream) Produce(context.Context, *msgstream.MsgPack) error { return nil }
+func (*stubStream) SetRepackFunc(repackFunc msgstream.RepackFunc)     {}
+func (*stubStream) GetProduceChannels() []string                      { return nil }
 func (*stubStream) Broadcast(context.Context, *msgstream.MsgPack) (map[string][]msgstream.MessageID, error) {
 	return nil, nil
 }
 func (*stubStream) AsConsumer(ctx context.Context, channels []string, subName string, position common.SubscriptionInitialPosition) error {
 	return nil
 }
-func (*stubStream) Chan() <-chan *msgstream.ConsumeMsgPack               { return nil }
+func (*stubStream) Chan() <-chan *msgstream.ConsumeMsgPack                { return nil }
 func (*stubStream) GetUnmarshalDispatcher() msgstream.UnmarshalDispatcher { return nil }
 func (*stubStream) Seek(ctx context.Context, msgPositions []*msgstream.MsgPosition, includeCurrentMsg bool) error {
 	return nil
